@@ -24,7 +24,7 @@ PINNED = [
     "slice_valid_or_error_full_refuted", "range_incl_max_refuted", "with_bounds_beyond_end_refuted",
     "split_empty_pattern_stuck", "size_hint_never_panics", "to_list_exhausted_is_empty", "chars_concat",
     "char_indices_tile", "split_join", "lines_spec", "escape_total", "escape_unicode_value", "escape_overflow_refuted",
-    "format_spec_parse_total", "strip_prefix_spec", "strip_suffix_spec", "repeat_len", "format_fill_count", "format_fill_count_refuted",
+    "format_spec_parse_total", "strip_prefix_spec", "strip_suffix_spec", "repeat_len", "trim_is_end_after_start", "trim_matches_laws", "format_fill_count", "format_fill_count_refuted",
 ]
 
 ALPHABET = ["a", "é", "€", "😀", "́", "\r", "\n", " "]
@@ -101,6 +101,67 @@ def gen_str_cases(tier, seed):
     for c in cases:
         if c["variant"] != 2:
             c["pad"] = 0
+    return cases
+
+
+# pattern-taking functions: bordered (self-overlapping) patterns and subjects built from overlapping runs
+
+BORDERED = ["aa", "aba", "-=-", "éé", "abab", "aaa", "é́é́", "aéa", "\r\n\r", "😀😀"]
+PLAIN = ["ab", "a", "é", "́", "abc"]
+REPS = ["", "x", "éa"]
+
+
+def gen_pat_cases(tier, seed):
+    """kind str, tables 'po': per case a subject and the patterns tried on it"""
+    rng = C.Rng(seed + 555)
+    cases = []
+    n = 0
+
+    def add(origin, subject, pats):
+        nonlocal n
+        n += 1
+        pre, post = CONTEXTS[n % len(CONTEXTS)]
+        cases.append({"kind": "str", "origin": origin, "variant": n % 2, "pad": 0, "pre": b(pre), "s": b(subject),
+                      "post": b(post), "pats": [b(q) for q in pats], "reps": [b(q) for q in REPS], "tables": "po"})
+
+    # (a) subjects made of k copies of a bordered pattern +- a proper prefix / suffix of it +- a separator
+    for pat in BORDERED + PLAIN[:1]:
+        chars = list(pat)
+        subjects = set()
+        for k in range(0, 4):
+            run = pat * k
+            subjects.add(run)
+            for j in range(1, len(chars)):
+                pre_, suf_ = "".join(chars[:j]), "".join(chars[j:])
+                subjects.add(run + pre_)
+                subjects.add(suf_ + run)
+                subjects.add(suf_ + run + pre_)
+            for sep in ["|", chars[0], "é"]:
+                subjects.add(run + sep + run)
+                subjects.add(sep + run)
+                subjects.add(run + sep)
+        for m in range(1, 8):
+            subjects.add(chars[0] * m)          # odd / even runs of the first character
+        subjects = sorted(subjects)
+        if tier == "quick":
+            subjects = [x for x in subjects if len(x) <= 7 or rng.chance(1, 3)]
+        others = ["", pat + pat, pat + chars[0], chars[0], "".join(chars[:-1]) or "a"]
+        for sub in subjects:
+            add("pattern-runs", sub, [pat] + others[:(2 if tier == "quick" else 5)] + [sub + "a"])   # incl. longer than subject
+    # (b) exhaustive subjects over {a, b, é} x every pattern over the same alphabet up to length 3 (and the empty one)
+    alpha = ["a", "b", "é"]
+    allp = [""] + ["".join(q) for k in (1, 2, 3) for q in itertools.product(alpha, repeat=k)]
+    bordered3 = [q for q in allp if len(q) >= 2 and any(q[:j] == q[-j:] for j in range(1, len(q)))]
+    kex = 3 if tier == "quick" else 6
+    for k in range(0, 7):
+        for tup in itertools.product(alpha, repeat=k):
+            sub = "".join(tup)
+            if k <= kex:
+                add("pattern-exhaustive", sub, allp)
+            elif tier == "quick":
+                # longer subjects: a seeded sample, bordered patterns only (that is where overlap matters)
+                if rng.chance(1, 8 if k == 4 else 24 if k == 5 else 60):
+                    add("pattern-exhaustive-sample", sub, bordered3)
     return cases
 
 
@@ -433,6 +494,71 @@ def d_ops(case, table):
     return fails
 
 
+def ref_trim_start(s, p):
+    while p and s.startswith(p):
+        s = s[len(p):]
+    return s
+
+
+def ref_trim_end(s, p):
+    while p and s.endswith(p):
+        s = s[:len(s) - len(p)]
+    return s
+
+
+def d_pat(case, table):
+    """trim / trim_start / trim_end / replace / split per pattern against python's own definitions:
+    strip leading repetitions, then trailing repetitions of what is left; leftmost non-overlapping replace/split"""
+    s = bytes(case["s"])
+    text = s.decode("utf-8")
+    fails, known = [], set()
+    pos = 0
+    L = len(s)
+    for pl in case["pats"]:
+        p = bytes(pl)
+        ptxt = p.decode("utf-8")
+        exp = [[0] + list(ref_trim_end(ref_trim_start(s, p), p)), [0] + list(ref_trim_start(s, p)), [0] + list(ref_trim_end(s, p))]
+        for rl in case["reps"]:
+            exp.append([0] + list(text.replace(ptxt, bytes(rl).decode("utf-8")).encode("utf-8")))
+        names = ["trim", "trim_start", "trim_end"] + [f"replace(.., {bytes(rl)!r})" for rl in case["reps"]]
+        got = table[pos:pos + len(exp)]
+        pos += len(exp)
+        for nm, g, e in zip(names, got, exp):
+            if g != e:
+                shown = repr(bytes(g[1:])) if g and g[0] == 0 else repr(g)
+                fails.append(f"{text!r}.{nm} with pattern {ptxt!r} gave {shown}, expected {bytes(e[1:])!r}")
+        # split group: [5,105], items, [5,fin], hint
+        if pos >= len(table) or table[pos] != [5, 105]:
+            fails.append(f"pattern table out of step at entry {pos}")
+            return fails, known
+        pos += 1
+        items = []
+        fin = None
+        while pos < len(table) and not (table[pos][0] == 5 and len(table[pos]) == 2):
+            items.append(table[pos])
+            pos += 1
+        if pos < len(table):
+            fin = table[pos][1]
+            pos += 1
+        if items == [[4]]:
+            fails.append(f"{text!r}.split {ptxt!r}: next() panicked")
+            continue
+        if not fin:
+            if p == b"":
+                known.add("C15d")
+            else:
+                fails.append(f"{text!r}.split {ptxt!r}: not finished after {L + 3} calls of next()")
+            continue
+        hint = table[pos] if pos < len(table) else None
+        pos += 1
+        if hint == [4]:
+            fails.append(f"{text!r}.split {ptxt!r}: size_hint of the exhausted iterator panics")
+        ps = [bytes(e[1:]) for e in items]
+        if any(e[0] != 0 for e in items) or ps != s.split(p):
+            fails.append(f"{text!r}.split {ptxt!r} gave {items if any(e[0] != 0 for e in items) else ps}, expected {s.split(p)}")
+    return fails, known
+
+
 KNOWN["C15g"] = ("C15g a formatted field can have fewer grapheme clusters than the requested width when the fill "
                  "character (or the value) combines with its neighbour, e.g. '{x:\\u{301}<5}' with the fill U+0301 has 1-2 clusters")
 KNOWN["C15h"] = ("C15h '\\u{100000041}' (more than 8 hex digits) panics the parser: `code *= 16` overflows a u32 "
@@ -654,6 +780,8 @@ def str_terms(c, r):
             ts.append(("iter", f"iter_table {args} {C.coq_list(r['gb'])} {coq_ll(c['pats'])}"))
         elif tab == "o":
             ts.append(("ops", f"ops_table {args} {coq_ll(c['pats'])}"))
+        elif tab == "p":
+            ts.append(("pat", f"pat_table {args} {coq_ll(c['pats'])} {coq_ll(c['reps'])}"))
     return ts
 
 
@@ -731,7 +859,7 @@ def run(tier, seed):
                                 "log": blog[-3000:]}, no_input=True)
         return chk.finish("n/a")
 
-    cases = gen_str_cases(tier, seed)
+    cases = gen_str_cases(tier, seed) + gen_pat_cases(tier, seed)
     impl, out = run_harness(binp, cases, "str")
     if impl is None:
         chk.log(f"harness run failed: {out[-1500:]}")
@@ -766,6 +894,10 @@ def run(tier, seed):
             known |= k
         if "ops" in r:
             fails += d_ops(c, r["ops"])
+        if "pat" in r:
+            f, k = d_pat(c, r["pat"])
+            fails += f
+            known |= k
         for k in known:
             chk.known(KNOWN[k])
         if fails:
@@ -1011,6 +1143,8 @@ def replay(path, args):
         fails += d_iter(c, r["iter"], r["gb"])[0]
     if "ops" in r:
         fails += d_ops(c, r["ops"])
+    if "pat" in r:
+        fails += d_pat(c, r["pat"])[0]
     for f in fails[:20]:
         print("  " + f)
     if fails:
